@@ -1,3 +1,6 @@
 import CstModel.Props.C14
 open Cst.C14
-#print axioms placeholder
+#print axioms replace_spec
+#print axioms replace_shares
+#print axioms replace_kind_mismatch
+#print axioms replace_id
